@@ -20,6 +20,7 @@ import (
 type ModelVar struct {
 	Label string // Go-level description, e.g. "data#len" or "param a"
 	Term  Term
+	Needs []string // symbols that must be declared in the query for this term to be evaluable
 }
 
 type Oblig struct {
@@ -96,6 +97,9 @@ type FT struct {
 	params  []ModelVar
 	entryMem *Mem
 	auto    map[*ssa.BasicBlock][]*autoInv
+	topCon  *Contract
+	label   string // obligation name prefix when fn is nil (lemmas)
+	assignItems []*assignItem
 }
 
 type frame struct {
@@ -115,6 +119,7 @@ type frame struct {
 	curBlock *ssa.BasicBlock
 	dbg      map[types.Object][]ssa.Value
 	free     []*Val
+	lemPkg   *types.Package
 }
 
 func (ft *FT) note(s string) { ft.partial[s] = true }
@@ -348,13 +353,13 @@ func (fr *frame) oblige(kind, text string, pos token.Pos, goal Term) {
 		fr.cur.pc = ft.c.Define("pc", mkAnd(fr.cur.pc, goal))
 		return
 	}
-	base := fmt.Sprintf("%s#%s#%s", funcName(ft.fn), kind, text)
+	base := fmt.Sprintf("%s#%s#%s", ft.fname(), kind, text)
 	if fr.inl != "" {
-		base = fmt.Sprintf("%s#%s@%s#%s", funcName(ft.fn), kind, fr.inl, text)
+		base = fmt.Sprintf("%s#%s@%s#%s", ft.fname(), kind, fr.inl, text)
 	}
 	k := ft.names[base]
 	ft.names[base] = k + 1
-	ob := &Oblig{Name: fmt.Sprintf("%s#%d", base, k), Kind: kind, Func: funcName(ft.fn), Text: text,
+	ob := &Oblig{Name: fmt.Sprintf("%s#%d", base, k), Kind: kind, Func: ft.fname(), Text: text,
 		Pos: ft.e.pos(pos), Hyp: fr.cur.pc, Goal: goal, Inline: fr.inl}
 	ft.obs = append(ft.obs, ob)
 	fr.cur.pc = ft.c.Define("pc", mkAnd(fr.cur.pc, goal))
@@ -366,6 +371,13 @@ func (fr *frame) assume(t Term) {
 
 // ---------------------------------------------------------------------------
 // frame setup
+
+func (ft *FT) fname() string {
+	if ft.fn == nil {
+		return ft.label
+	}
+	return funcName(ft.fn)
+}
 
 func funcName(fn *ssa.Function) string {
 	if fn == nil {
